@@ -155,7 +155,8 @@ EqPairs(E) == LET ks == SetToSeq(DOMAIN E) IN [i \in DOMAIN ks |-> <<ks[i], E[ks
 \* the value takes over the key's term and definition text; otherwise the value keeps its own
 NewTermText == << [r |-> FALSE, s |-> "renamed"] >>
 \* CN: the keys whose value gets a new term text (option "create a new term")
-EquateM(S, E, KD, CN) ==
+\* t: the tracking map (the keys stop being tracked; an absorbed duplicate loses its entry)
+EquateT(S, t, E, KD, CN) ==
   LET names == [a \in {S.c[k].alias : k \in DOMAIN E} |-> S.c[E[UidOf(S.c, a)]].alias]
       c0 == [u \in DOMAIN S.c |-> IF \E k \in KD : E[k] = u
                                    THEN LET k == CHOOSE x \in KD : E[x] = u IN [S.c[u] EXCEPT !.term = S.c[k].term, !.text = S.c[k].text]
@@ -163,8 +164,9 @@ EquateM(S, E, KD, CN) ==
                                    ELSE S.c[u]]
       c1 == [u \in DOMAIN S.c \ DOMAIN E |-> RenRec(c0[u], names)]
       ord1 == SelectSeq(S.ord, LAMBDA u : u \notin DOMAIN E)
-      d == Dedup(ord1, c1, <<>>)
-  IN [ord |-> d.ord, c |-> d.c, pairs |-> EqPairs(E) \o d.tr]
+      d == Dedup(ord1, c1, [x \in DOMAIN t \ DOMAIN E |-> t[x]])
+  IN [ord |-> d.ord, c |-> d.c, t |-> d.t, pairs |-> EqPairs(E) \o d.tr]
+EquateM(S, E, KD, CN) == EquateT(S, <<>>, E, KD, CN)
 Equate(S, E, KD) == EquateM(S, E, KD, {})
 \* where an identifier ends up: follow erased -> absorbing pairs
 RECURSIVE FinalOf(_, _, _)
@@ -174,7 +176,8 @@ FinalOf(u, pairs, fuel) ==
 
 \* ---- synthesis (ops::BinarySynthes): E maps identifiers of S1 to identifiers of S2
 SwapNeeded(c, k, v) == c[k].kind # c[v].kind /\ ~IsBaseSetKind(c[k].kind) /\ IsBaseNotionKind(c[v].kind)
-Synth(S1, S2, E, fresh) ==
+SynthPresent(S1, S2, E) == \A k \in DOMAIN E : k \in DOMAIN S1.c /\ E[k] \in DOMAIN S2.c     \* a table naming a missing constituent is refused
+SynthIn(S1, S2, E, fresh) ==
   LET m == MergeSchemas(S1, S2, fresh)
       M == [ord |-> m.ord, c |-> m.c]
       E2 == [k \in DOMAIN E |-> m.tr[E[k]]]
@@ -186,6 +189,9 @@ Synth(S1, S2, E, fresh) ==
      ELSE [defined |-> TRUE, merged |-> M, table |-> E3, mtr |-> m.tr, ord |-> eq.ord, c |-> ResetF(eq.ord, eq.c), pairs |-> eq.pairs,
            t1 |-> [u \in DOMAIN S1.c |-> FinalOf(u, eq.pairs, 8)],
            t2 |-> [u \in DOMAIN S2.c |-> FinalOf(m.tr[u], eq.pairs, 8)]]
+Synth(S1, S2, E, fresh) ==
+  IF SynthPresent(S1, S2, E) THEN SynthIn(S1, S2, E, fresh)
+  ELSE LET m == MergeSchemas(S1, S2, fresh) IN [defined |-> FALSE, merged |-> [ord |-> m.ord, c |-> m.c], table |-> <<>>, mtr |-> m.tr]
 
 \* ---- the contract of the statement, as predicates on (operands, table, result) - checked on the model's own results by TLC
 RefNames(q) == {q[i].s : i \in {j \in DOMAIN q : q[j].r}}
